@@ -1,0 +1,70 @@
+"""Trace hooks for external verification tooling.
+
+Every hook is a no-op unless the environment variable LABTECH_VERIF_TRACE is
+set when labtech is imported.  With LABTECH_VERIF_TRACE=mem events are handed
+to an in-process sink (``labtech._verif.sink``); with any other value they are
+appended, one JSON object per line, to the file of that name using a single
+``os.write`` on an ``O_APPEND`` descriptor, so that events of several
+processes interleave in an order consistent with causality.
+"""
+
+import json
+import os
+import threading
+
+_TARGET = os.environ.get('LABTECH_VERIF_TRACE', '')
+ENABLED = bool(_TARGET)
+
+sink = None
+_fd = None
+_fd_pid = None
+_seq = 0
+_lock = threading.Lock()
+_future_tasks: dict = {}
+
+
+def task_id(task):
+    ident = getattr(task, 'tid', None)
+    return repr(task) if ident is None else ident
+
+
+def task_ids(tasks):
+    return [task_id(task) for task in tasks]
+
+
+def held(runner):
+    return sorted(task_ids(getattr(runner, 'results_map', {})), key=str)
+
+
+def bind_future(future_id, thunk):
+    """Remember which task a future belongs to (the executor only knows thunks)."""
+    task = getattr(thunk, 'keywords', {}).get('task')
+    _future_tasks[future_id] = None if task is None else task_id(task)
+    return _future_tasks[future_id]
+
+
+def future_task(future_id):
+    return _future_tasks.get(future_id)
+
+
+def emit(event, **fields):
+    global _fd, _fd_pid, _seq
+    if not ENABLED:
+        return
+    pid = os.getpid()
+    with _lock:
+        if _fd_pid != pid:
+            # first event of this process (e.g. a forked worker): own sequence, own descriptor
+            _seq = 0
+            _fd = None
+            _fd_pid = pid
+        _seq += 1
+        record = {'e': event, 'pid': pid, 's': _seq, **fields}
+        if sink is not None:
+            sink(record)
+            return
+        if _TARGET == 'mem':
+            return
+        if _fd is None:
+            _fd = os.open(_TARGET, os.O_WRONLY | os.O_APPEND | os.O_CREAT, 0o644)
+        os.write(_fd, (json.dumps(record, separators=(',', ':')) + '\n').encode('utf-8'))
